@@ -15,6 +15,8 @@ CLAIMED = {
          'native back-end; std models'),
  'C05': ('5/C05', 'nogood search executed symbolically for Simple, both counting heuristics, Rand (every draw a fresh solver variable) and a Custom model heuristic (every admissible choice explored); delivered multiset compared with the definition, sender drop checked in the channel model, fuel exhaustion = non-termination candidate confirmed natively.',
          'roaring bitmaps as 32-bit vectors, crossbeam channel as FIFO model, StdRng over-approximated; bounded families (Rand/Custom: all 2-statement ADFs + seeded 3-statement ADFs)'),
+ 'C08': ('5/C08, 10.2', 'library half only: the crate\'s grammar composition (alternative order, tags, map closures building Formula values, dictionary updates of parse_statement/parse_ac) is executed from its MIR on inputs of concrete length whose bytes are solver variables over a 24-symbol alphabet; a reference recogniser for the documented grammar runs on the same symbolic bytes; per path both must agree on accept/reject, consumed length, tree shape, verbatim label slices (keyword look-alikes), argument order, statement list / dictionary / formula list; no panic path.',
+         'nom combinators are models (validated differentially each run); all strings up to length 7-8 plus connective-prefixed families; OUTSIDE: longer inputs, nom internals, the CLI and web halves (exit status, parse_only = Error)'),
  'C09': ('3.3, 5/C09', 'translation validation: every compiled program (text x native / biodivine bridge / pre-grounded bridge x sort mode) is decided exactly by z3 - for each statement, diagram (ITE term over the dumped node table) == acceptance formula over all assignments; pre-grounded import against the formula with z3-computed grounded values substituted. Repo instances + ~100 (quick) / 1000 (thorough) seeded texts with up to 60 statements.',
          'reference reader/printer of the text format; validation of individual compilations, not a proof of the compiler', 'translation_validation',
          'z3 equivalence checking of the real binary\'s compiled diagrams against the parsed formulas (translation validation), disagreements replayed natively'),
